@@ -52,6 +52,10 @@ def _lf(ctx, t, depth=0):
     if depth > 30:
         raise Unknown('depth')
     k = t.tag
+    if k in ('array',) or (k == 'adapt' and t[1] in ('iter', 'into_iter') and len(t.args) >= 3 and _const_len(t[2]) is not None):
+        # a literal list: its length is a constant
+        n_ = len(t.args) if k == 'array' else _const_len(t[2])
+        return frozenset(['=%d' % n_]), 0
     if k == 'mut':
         base, evs = t[1], t[2]
         # a vector created empty and filled by exactly one push per iteration of a loop has that loop's length
